@@ -13,6 +13,7 @@ func init() {
 	vxRegister("H18aQ", H18aQ)
 	vxRegister("H18aT", H18aT)
 	vxRegister("H18a4", H18a4)
+	vxRegister("H18a5", H18a5)
 	vxRegister("H18tmpl", H18tmpl)
 	vxRegister("H18c", H18c)
 	vxRegister("H18tables", H18tables)
@@ -257,6 +258,7 @@ func vxCompare(tag string, got Comments, want []vxRefComment) {
 func H18aQ() { h18a(vxString(2), vxLangs[vxChoice(len(vxLangs))]) }
 func H18aT() { h18a(vxString(3), vxLangs[vxChoice(len(vxLangs))]) }
 func H18a4() { h18a(vxString(4), vxLangs[vxChoice(len(vxLangs))]) }
+func H18a5() { h18a(vxString(5), vxLangs[vxChoice(len(vxLangs))]) }
 
 // H18tmpl: lexeme adjacency - one complete concrete lexeme between symbolic bytes.
 func H18tmpl() {
